@@ -49,6 +49,7 @@ type n10Case struct {
 	Stall   bool      `json:"stall,omitempty"`
 	Preload []n09Op   `json:"preload,omitempty"`
 	Steps   []n10Step `json:"steps"`
+	Roles   []string  `json:"roles,omitempty"` // role case (c10_roles_test.go): leader | follower-empty | follower-addr
 }
 
 func (c *n10Case) fingerprint() uint64 {
@@ -64,7 +65,7 @@ func (c *n10Case) fingerprint() uint64 {
 		sb.WriteString(strings.Join(s.KV, " "))
 		fmt.Fprintf(&sb, "%s/%v;", s.State, s.Direct)
 	}
-	return vHash(c.Text, c.Stall, sb.String())
+	return vHash(c.Text, c.Stall, sb.String(), strings.Join(c.Roles, ","))
 }
 
 const n10WaitKey, n10WaitHolder = 9, 9
@@ -313,6 +314,7 @@ const n10KeyProbable = "C10:concurrent-check-answered-locally-by-non-leader"
 const n10KeyUnlockUnknown = "C10:non-leader-unlock-of-unknown-key-answers-UNLOCK_ERROR"
 
 type n10Info struct {
+	deposed int
 	pushes, kvs int
 	waits, waitsDecidedByLeader int
 	excludedUnknownUnlock int
@@ -372,6 +374,9 @@ func n10Cluster(preload []n09Op, noLoop bool) (*n09Env, string) {
 }
 
 func n10RunCase(c *n10Case) (out n10Out) {
+	if len(c.Roles) > 0 {
+		return n10RunRoles(c)
+	}
 	// ---- run F: through the follower
 	e, why := n10Cluster(c.Preload, false)
 	if e == nil {
@@ -716,6 +721,18 @@ func n10GenOp(t *rapid.T, text bool, keys int) *n09Op {
 
 func n10GenCase(t *rapid.T, st *vStat) *n10Case {
 	c := &n10Case{Kind: "forward"}
+	if rk := rapid.IntRange(0, 99).Draw(t, "roleCase"); rk >= 35 && rk < 65 {
+		// role changes through ReplicationManager, as the arbiter performs them
+		for i, n := 0, rapid.IntRange(2, 6).Draw(t, "nroles"); i < n; i++ {
+			c.Roles = append(c.Roles, rapid.SampledFrom([]string{"follower-empty", "leader", "follower-addr", "leader", "follower-empty"}).Draw(t, "role"))
+		}
+		for i, n := 0, rapid.IntRange(0, 3).Draw(t, "rolePreload"); i < n; i++ {
+			op := n09GenLock(t, 2)
+			op.Flag = 0
+			c.Preload = append(c.Preload, op)
+		}
+		return c
+	}
 	c.Text = rapid.IntRange(0, 2).Draw(t, "text") == 0
 	c.Stall = rapid.IntRange(0, 1).Draw(t, "stall") == 0
 	keys := rapid.IntRange(1, 3).Draw(t, "keys")
@@ -867,6 +884,8 @@ func TestC10_Forward(t *testing.T) {
 		add(c.Text, "text protocol")
 		add(!c.Text, "binary protocol")
 		add(out.info.noReply > 0, "request without reply")
+		add(len(c.Roles) > 0, "role calls through ReplicationManager (SwitchToFollower / SwitchToLeader)")
+		add(out.info.deposed > 0, "node deposed after it had been leader")
 		add(out.info.pushes > 0, "text PUSH through the follower")
 		add(out.info.kvs > 0, "text key-value command (SET/GET/DEL) through the follower")
 		add(out.info.waits > 0, "waiting concurrent-check request (Timeout > 0) through the follower")
